@@ -77,7 +77,22 @@ ProgModSvcs ==
     pb \in { Sv(NoRef), Sv(Bare("Q")), Sv(Qual("a", "Q")) },
     qb \in { [k |-> "no"], Sv(NoRef), Sv(Bare("P")) } }
 
+\* ---- family "dotted": definitions of module a whose names contain a dot and read like include-qualified names
+\*      ("b.A", "b.x", "b.P" next to an include b that may define A, x, P): the local definition is the one meant
+ProgDotted ==
+  { [inc |-> i,
+     ty |-> (Key("a", "A") :> [k |-> "td", tgt |-> Qual("b", "A")]) @@ (Key("a", "b.A") :> la) @@ (Key("b", "A") :> ba),
+     co |-> (Key("a", "y") :> [k |-> "co", ty |-> BaseRef("i32"), val |-> CRef("b", "x")]) @@ (Key("a", "b.x") :> lx) @@ (Key("b", "x") :> bx),
+     sv |-> (Key("a", "S") :> Sv(Qual("b", "P"))) @@ (Key("a", "b.P") :> lp) @@ (Key("b", "P") :> bp)] :
+    i \in { [a |-> {"b"}, b |-> {}], [a |-> {}, b |-> {}] },
+    la \in { [k |-> "no"], [k |-> "en"], [k |-> "td", tgt |-> BaseRef("i32")] },
+    ba \in { [k |-> "no"], [k |-> "td", tgt |-> BaseRef("string")], [k |-> "st", fty |-> BaseRef("i32"), dfl |-> CNone] },
+    lx \in { [k |-> "no"], [k |-> "co", ty |-> BaseRef("i32"), val |-> CInt], [k |-> "co", ty |-> BaseRef("string"), val |-> CStr] },
+    bx \in { [k |-> "no"], [k |-> "co", ty |-> BaseRef("i32"), val |-> CInt] },
+    lp \in { [k |-> "no"], Sv(NoRef) }, bp \in { [k |-> "no"], Sv(NoRef) } }
+
 Programs == CASE Family = "types"   -> ProgTypes
+              [] Family = "dotted"  -> ProgDotted
               [] Family = "modsvcs" -> ProgModSvcs
               [] Family = "consts"  -> ProgConsts
               [] Family = "svcs"    -> ProgSvcs
